@@ -4,7 +4,10 @@
    Code anchors: accessory/container.go:27-43 (AddAccessory: automatic ids from a counter, explicit ids kept, duplicates
    rejected), accessory/accessory.go:111-121 (UpdateIDs: services and characteristics numbered consecutively from the
    accessory's counter), accessory/accessory.go:31-78 (New: the information service comes first).
-   The assignment is a deterministic function of the construction word, so rebuilding yields the same ids. *)
+   The assignment is a deterministic function of the construction word, so rebuilding yields the same ids.
+   It is also idempotent: numbering an accessory again (it is added to another container, a service is added later)
+   starts from 1 again and gives every service and characteristic the id it had (guard numbering_restarts_at_one); an
+   implementation that keeps counting where the last numbering stopped hands out new ids every time. *)
 EXTENDS Naturals, Sequences, FiniteSets, TLC
 CONSTANTS MaxAcc, Explicit, Shapes, Weak
 VARIABLES accs,      \* accepted accessories: sequence of [aid, iids (sequence)]
@@ -18,6 +21,10 @@ RECURSIVE Number(_, _)
 Number(shape, from) == IF shape = <<>> THEN <<>>
                        ELSE [i \in 1..(1 + Head(shape)) |-> from + i - 1] \o Number(Tail(shape), from + 1 + Head(shape))
 IidsOf(shape) == Number(<<6>> \o shape, IF Guard("iid_counter_starts_at_one") THEN 1 ELSE 0)
+\* the ids after the accessory has been numbered n times (n >= 1)
+IidsAfter(shape, n) == IF Guard("numbering_restarts_at_one") THEN IidsOf(shape)
+                       ELSE Number(<<6>> \o shape, 1 + (n - 1) * Len(IidsOf(shape)))
+Idempotent == \A sh \in Shapes : IidsAfter(sh, 2) = IidsAfter(sh, 1)
 
 Init == accs = <<>> /\ idCount = 1 /\ word = <<>>
 Add(e, sh) ==
